@@ -30,7 +30,7 @@ package keeper
 //@   // the destination was validated against maccPerms when it was configured (Account.Validate)
 //@   panic_requires moduleExists(state.Account.Id)
 //@   modifies $bal, *state, $accTag, $accSeq, $accPub
-//@   ensures state.Account == old(state.Account) && state.Burn == old(state.Burn) && $supply == old($supply)
+//@   ensures state.Account == old(state.Account) && state.Burn == old(state.Burn) && $supply == old($supply) && existingAccountsUntouched()
 //@   ensures ($bal == old($bal) && state.Remains == old(state.Remains))
 //@     || (remainsTruncated(state, old(state.Remains))
 //@         && (forall d: str :: {$bal[MAIN()][d]} $bal[MAIN()][d] == old($bal[MAIN()][d]) - truncInt(old(state.Remains[d])))
@@ -40,7 +40,7 @@ package keeper
 //@ func (k Keeper) sendCoinsToBaseAccount(ctx, state)
 //@   requires state != nil && state.Account != nil && fromBech32(state.Account.Id) != MAIN()
 //@   modifies $bal, *state, $accTag, $accSeq, $accPub
-//@   ensures state.Account == old(state.Account) && state.Burn == old(state.Burn) && $supply == old($supply)
+//@   ensures state.Account == old(state.Account) && state.Burn == old(state.Burn) && $supply == old($supply) && existingAccountsUntouched()
 //@   ensures ($bal == old($bal) && state.Remains == old(state.Remains))
 //@     || (remainsTruncated(state, old(state.Remains))
 //@         && (forall d: str :: {$bal[MAIN()][d]} $bal[MAIN()][d] == old($bal[MAIN()][d]) - truncInt(old(state.Remains[d])))
@@ -55,22 +55,10 @@ package keeper
 //@   requires n >= 0
 //@   ensures sumRem(store(row, pos, v), d, n) == sumRem(row, d, n) + ((0 <= pos && pos < n) ? v[d] - row[pos][d] : 0)
 //@   prop C03
-//@ // every recorded remainder of denom d among the first n states is non-negative
-//@ spec func rowNonNeg(row [int][str]int, d str, n int) bool = n <= 0 ? true : (rowNonNeg(row, d, n - 1) && row[n - 1][d] >= 0)
 //@ lemma sumRemNonNeg(row [int][str]int, d str, n int)
 //@   induction n
-//@   requires n >= 0 && rowNonNeg(row, d, n)
+//@   requires n >= 0 && (forall k: int :: {row[k][d]} 0 <= k && k < n ==> row[k][d] >= 0)
 //@   ensures sumRem(row, d, n) >= 0
-//@   prop C03
-//@ lemma rowNonNegStore(row [int][str]int, d str, n int, pos int, v [str]int)
-//@   induction n
-//@   requires n >= 0 && rowNonNeg(row, d, n) && v[d] >= 0
-//@   ensures rowNonNeg(store(row, pos, v), d, n)
-//@   prop C03
-//@ lemma rowNonNegAt(row [int][str]int, d str, n int, pos int)
-//@   induction n
-//@   requires 0 <= pos && pos < n && rowNonNeg(row, d, n)
-//@   ensures row[pos][d] >= 0
 //@   prop C03
 //@ pred statesHaveAccounts(s) = forall k: int :: {s[k].Account} 0 <= k && k < len(s) ==> s[k].Account != nil
 //@ func findAccountState(states, account) (pos)
@@ -97,6 +85,7 @@ package keeper
 //@   requires !sharePercent.IsNil()
 //@   ensures allPositive(coinsToDistributeDec) ==> (forall d: str :: {res[d]} {coinsToDistributeDec[d]} res[d] == truncInt(coinsToDistributeDec[d] * sharePercent))
 //@   ensures !allPositive(coinsToDistributeDec) ==> res == zeroCoins()
+//@   ensures sharePercent >= 0 ==> (forall d: str :: {res[d]} res[d] >= 0)
 //@   prop C04 C10
 
 //@ // sum of the amounts of the first n Distribution events of a list (ptrs: the list's element row, amt: Distribution.Amount column)
@@ -113,18 +102,29 @@ package keeper
 //@   prop C18
 //@ pred wsumOf(x, dst, n) = wsumShares(x, elemRow(dst.Shares), heapOf("types.DestinationShare", "Share"), off(dst.Shares), n)
 //@ pred wsumBoundOf(x, dst, i, b) = wsumBound(x, elemRow(dst.Shares), heapOf("types.DestinationShare", "Share"), off(dst.Shares), i, len(dst.Shares), b)
+//@ // what Account.Validate established for a destination that is paid out (and that it is not the distributor's own main account)
+//@ pred accountPayoutOK(acc) = (acc.Type == "MODULE_ACCOUNT" ==> moduleExists(acc.Id) && modaddr(acc.Id) != MAIN())
+//@   && (acc.Type != "MODULE_ACCOUNT" && acc.Type != "INTERNAL_ACCOUNT" ==> fromBech32(acc.Id) != MAIN())
+//@ pred destinationAccountsOK(dst) = accountPayoutOK(dst.PrimaryShare)
+//@   && (forall k: int :: {dst.Shares[k]} 0 <= k && k < len(dst.Shares) ==> accountPayoutOK(dst.Shares[k].Destination))
 //@ pred distAllocated(ds) = forall k: int :: {ds[k]} 0 <= k && k < len(ds) ==> ds[k] != nil && allocated(ds[k])
 
 //@ // One sub-distributor's step: every coin of the inflow is booked to exactly one state (books), is reported by exactly one
 //@ // event (events), and the burn event carries the truncated burn share of the inflow.
 //@ func (k Keeper) StartDistributionProcess(ctx, states, coinsToDistributeDec, subDistributor) (localRemains, distributions, burn)
 //@   requires states != nil && off(*states) == 0 && statesHaveAccounts(*states) && destinationsValid(subDistributor.Destinations)
-//@   requires allPositive(coinsToDistributeDec)
+//@   requires allPositive(coinsToDistributeDec) && remainsNonNeg(*states) && payoutOK(*states) && destinationAccountsOK(subDistributor.Destinations)
 //@   uses forall row: [int][str]int, pos: int, v: [str]int, d: str, n: int :: {sumRem(store(row, pos, v), d, n)} sumRemStore(row, d, n, pos, v)
 //@   uses forall ptrs: [int]int, amt: [int][str]int, d: str, n: int, r: int, v: [str]int :: {sumDist(ptrs, store(amt, r, v), d, n)} sumDistFrameAmt(ptrs, amt, d, n, r, v)
 //@   uses forall ptrs: [int]int, amt: [int][str]int, d: str, n: int, pos: int, x: int :: {sumDist(store(ptrs, pos, x), amt, d, n)} sumDistFramePtrs(ptrs, amt, d, n, pos, x)
 //@   uses forall d: str :: {coinsToDistributeDec[d]} wsumBoundOf(coinsToDistributeDec[d], subDistributor.Destinations, len(subDistributor.Destinations.Shares), subDistributor.Destinations.BurnShare)
 //@   ensures localRemains != nil && off(*localRemains) == 0 && statesHaveAccounts(*localRemains) && len(*localRemains) >= old(len(*states))
+//@   ensures remainsNonNeg(*localRemains)
+//@   ensures payoutOK(*localRemains)
+//@   // a primary share that stays on the main account is not booked to any state: the books grow by at most the inflow
+//@   ensures [books-main] forall d: str :: subDistributor.Destinations.PrimaryShare.Type == "MAIN" ==>
+//@       sumRem(fieldRow(*localRemains, "Remains"), d, len(*localRemains)) >= old(sumRem(fieldRow(*states, "Remains"), d, len(*states)))
+//@       && sumRem(fieldRow(*localRemains, "Remains"), d, len(*localRemains)) <= old(sumRem(fieldRow(*states, "Remains"), d, len(*states))) + coinsToDistributeDec[d]
 //@   ensures [books] forall d: str :: subDistributor.Destinations.PrimaryShare.Type != "MAIN" ==>
 //@       sumRem(fieldRow(*localRemains, "Remains"), d, len(*localRemains)) == old(sumRem(fieldRow(*states, "Remains"), d, len(*states))) + coinsToDistributeDec[d]
 //@   ensures [events] forall d: str :: subDistributor.Destinations.PrimaryShare.Type != "MAIN" ==>
@@ -134,6 +134,9 @@ package keeper
 //@   prop C03 C04 C18 C01
 //@ loop Keeper.StartDistributionProcess#1
 //@   invariant localRemains != nil && off(*localRemains) == 0 && statesHaveAccounts(*localRemains) && len(*localRemains) >= old(len(*states))
+//@   invariant remainsNonNeg(*localRemains)
+//@   invariant payoutOK(*localRemains)
+//@   invariant forall d: str :: {defaultShare[d]} 0 <= defaultShare[d] && defaultShare[d] <= coinsToDistributeDec[d]
 //@   invariant distAllocated(distributions) && off(distributions) == 0 && 0 <= \i && \i <= len(subDistributor.Destinations.Shares)
 //@   invariant forall d: str :: sumRem(fieldRow(*localRemains, "Remains"), d, len(*localRemains)) + defaultShare[d] == old(sumRem(fieldRow(*states, "Remains"), d, len(*states))) + coinsToDistributeDec[d]
 //@   invariant forall d: str :: sumDist(elemRow(distributions), heapOf("types.Distribution", "Amount"), d, len(distributions)) + defaultShare[d] == coinsToDistributeDec[d]
@@ -145,7 +148,7 @@ package keeper
 //@ // ---- collecting a sub-distributor's inflow (C03 / C14): "unbooked" = what the main account holds beyond the recorded remains ----
 //@ pred remRow(s) = fieldRow(s, "Remains")
 //@ pred unbooked(s, d) = $bal[MAIN()][d] * P - sumRem(remRow(s), d, len(s))
-//@ pred remainsNonNeg(s) = forall d: str :: {rowNonNeg(remRow(s), d, len(s))} rowNonNeg(remRow(s), d, len(s))
+//@ pred remainsNonNeg(s) = forall k: int, d: str :: {remRow(s)[k][d]} 0 <= k && k < len(s) ==> remRow(s)[k][d] >= 0
 //@ func getRamainsSum(states) (sum)
 //@   requires states != nil && off(*states) == 0
 //@   ensures forall d: str :: {sum[d]} sum[d] == sumRem(remRow(*states), d, len(*states))
@@ -190,8 +193,6 @@ package keeper
 //@   requires forall d: str :: {coinsToDistribute[d]} coinsToDistribute[d] >= 0
 //@   modifies elems(states)
 //@   uses forall row: [int][str]int, pos: int, v: [str]int, d: str, n: int :: {sumRem(store(row, pos, v), d, n)} sumRemStore(row, d, n, pos, v)
-//@   uses forall row: [int][str]int, pos: int, v: [str]int, d: str, n: int :: {rowNonNeg(store(row, pos, v), d, n)} rowNonNegStore(row, d, n, pos, v)
-//@   uses forall pos: int, d: str :: {remRow(states)[pos][d]} rowNonNegAt(remRow(states), d, len(states), pos)
 //@   ensures statesHaveAccounts(states) && remainsNonNeg(states)
 //@   ensures forall d: str :: {res[d]} res[d] + sumRem(remRow(states), d, len(states)) == coinsToDistribute[d] + old(sumRem(remRow(states), d, len(states)))
 //@   ensures forall d: str :: {res[d]} res[d] >= coinsToDistribute[d]
@@ -284,9 +285,51 @@ package keeper
 //@ loop msgServer.UpdateSubDistributorBurnShareParam#1
 //@   invariant kvUnchanged()
 
-//@ // store iteration is not modelled: these accessors are assumed total (no claim about what they return)
+//@ // ---- the state store (assumed accessor contracts) ----
+//@ // SetState is logged: $stLogRem[i] is the remainder written by the i-th SetState call, $stLogN the number of calls so far.
+//@ // Reading the store back as "the list written by the last block" assumes distinct state keys (one state per destination).
+//@ ghost stLogN int
+//@ ghost stLogRem [int][str]int
+//@ func (k Keeper) SetState(ctx, state)
+//@   trusted
+//@   // every stored state has an account (the burn state an empty one): BeginBlock dereferences it
+//@   requires state.Account != nil
+//@   modifies $stLogN, $stLogRem
+//@   ensures $stLogN == old($stLogN) + 1 && $stLogRem == store(old($stLogRem), old($stLogN), state.Remains)
+//@ // what validation established for the account of a stored state that is paid out
+//@ pred payoutOK(s) = forall k: int :: {s[k].Account} 0 <= k && k < len(s) ==>
+//@     (s[k].Account.Type == "MODULE_ACCOUNT" && !s[k].Burn ==> moduleExists(s[k].Account.Id) && modaddr(s[k].Account.Id) != MAIN())
+//@     && (s[k].Account.Type != "MODULE_ACCOUNT" && s[k].Account.Type != "INTERNAL_ACCOUNT" && !s[k].Burn ==> fromBech32(s[k].Account.Id) != MAIN())
+//@ // store iteration is not modelled: GetAllStates is assumed to return a fresh list of the stored states, which satisfy the
+//@ // store invariants (an account on every state: obligation at every SetState call; non-negative remains and books that do not
+//@ // exceed the main balance: C03, re-established by BeginBlocker)
 //@ func (k Keeper) GetAllStates(ctx) (list)
 //@   trusted
+//@   ensures off(list) == 0 && statesHaveAccounts(list) && remainsNonNeg(list) && payoutOK(list)
+//@   ensures forall d: str :: {$bal[MAIN()][d]} unbooked(list, d) >= 0
+//@ spec func sumLog(row [int][str]int, o int, d str, n int) int = n <= 0 ? 0 : sumLog(row, o, d, n - 1) + row[o + n - 1][d]
+//@ lemma sumLogFrame(row [int][str]int, o int, d str, n int, pos int, v [str]int)
+//@   induction n
+//@   requires n >= 0 && pos >= o + n
+//@   ensures sumLog(store(row, pos, v), o, d, n) == sumLog(row, o, d, n)
+//@   prop C03
+//@ func checkIfAnyCoinIsGTE1(coins) (r)
+//@   prop C10
+//@ // The end-of-block payout: every state is written back exactly once, and what the main account holds beyond the written-back
+//@ // remains is what it held beyond the in-memory remains before (C03); a failed payout keeps its state in full (C14); the supply
+//@ // only ever drops (by burns).
+//@ func (k Keeper) SendCoinsFromStates(ctx, states)
+//@   requires off(states) == 0 && statesHaveAccounts(states) && payoutOK(states) && remainsNonNeg(states)
+//@   modifies $bal, $supply, $accTag, $accSeq, $accPub, $stLogN, $stLogRem
+//@   uses forall row: [int][str]int, o: int, d: str, n: int, pos: int, v: [str]int :: {sumLog(store(row, pos, v), o, d, n)} sumLogFrame(row, o, d, n, pos, v)
+//@   ensures existingAccountsUntouched() && $stLogN == old($stLogN) + len(states)
+//@   ensures [books] forall d: str :: {$bal[MAIN()][d]} $bal[MAIN()][d] * P - sumLog($stLogRem, old($stLogN), d, len(states)) == old(unbooked(states, d))
+//@   ensures forall d: str :: {$supply[d]} $supply[d] <= old($supply[d])
+//@   prop C03 C14 C01 C10
+//@ loop Keeper.SendCoinsFromStates#1
+//@   invariant 0 <= \i && \i <= len(states) && existingAccountsUntouched() && $stLogN == old($stLogN) + \i
+//@   invariant forall d: str :: {$bal[MAIN()][d]} $bal[MAIN()][d] * P - sumLog($stLogRem, old($stLogN), d, \i) - (sumRem(remRow(states), d, len(states)) - sumRem(remRow(states), d, \i)) == old(unbooked(states, d))
+//@   invariant forall d: str :: {$supply[d]} $supply[d] <= old($supply[d])
 
 //@ // ---- C20: entry points under the no-panic sweep (no functional claim here: they must not panic for any field values) ----
 //@ func (k Keeper) Params(c, req) (r0, r1)
